@@ -34,6 +34,10 @@ func main() {
 		os.Exit(debugFn(os.Args[2], os.Args[3:]))
 	case "frame":
 		os.Exit(debugFrame(os.Args[2], os.Args[3:]))
+	case "trace":
+		os.Exit(debugTrace(os.Args[2], os.Args[3:]))
+	case "helpers":
+		os.Exit(debugHelpers(os.Args[2], os.Args[3], os.Args[4:]))
 	case "wk":
 		os.Exit(debugWK(os.Args[2], os.Args[3]))
 	case "replay":
@@ -155,6 +159,55 @@ func debugFrame(pkgSuffix string, keys []string) int {
 	}
 	for _, e := range sortedKeys(a.External) {
 		fmt.Println("EXTERNAL", e)
+	}
+	return 0
+}
+
+func debugTrace(pkgSuffix string, keys []string) int {
+	w, err := loadWorld("./...")
+	if err != nil {
+		fmt.Fprintln(os.Stderr, err)
+		return 2
+	}
+	for path := range w.SSAPkgs {
+		if !strings.HasSuffix(path, pkgSuffix) || !strings.HasPrefix(path, modPath) {
+			continue
+		}
+		for _, k := range keys {
+			fn := w.lookupFunc(path, k)
+			if fn == nil {
+				continue
+			}
+			paths, err := traceFunction(w, fn, w.pureHelper)
+			if err != nil {
+				fmt.Println(k, "ERROR", err)
+				continue
+			}
+			fmt.Printf("%s: %d paths\n", k, len(paths))
+			for _, p := range paths {
+				fmt.Printf("  [%s]\n    %s\n", p.condString(), renderEvents(p.Events))
+				if len(p.Ret) > 0 {
+					fmt.Printf("    ret %v\n", p.Ret)
+				}
+			}
+		}
+	}
+	return 0
+}
+
+func debugHelpers(pkgSuffix, recv string, names []string) int {
+	w, err := loadWorld("./...")
+	if err != nil {
+		fmt.Fprintln(os.Stderr, err)
+		return 2
+	}
+	f := loadFamily(w, modPath+"/"+pkgSuffix, recv)
+	for _, n := range names {
+		r, e := f.helperRendering(n)
+		fmt.Printf("//@ trace helper %s := %s\n", n, r)
+		if e != "" {
+			fmt.Println("ERROR", e)
+		}
 	}
 	return 0
 }
